@@ -218,6 +218,32 @@ func runSpellings(payload []*Sx) *Sx {
 		var d types.Duration
 		typed(fmt.Sprintf("du-typed-%d", i), &d, js, func() bool { return d.Equal(du) })
 	}
+	// ... and what a typed position must REJECT: another extension's name, a missing name, members of the wrong JSON kind, an argument
+	// that is not a literal of that type, a number or null or an array in its place
+	rejects := func(name string, target func() interface{ UnmarshalJSON([]byte) error }, own string, lit string) {
+		others := []string{"decimal", "ip", "datetime", "duration", "", "Decimal", "nosuch"}
+		for _, fn := range others {
+			if fn == own {
+				continue
+			}
+			for _, js := range []string{extn(fn, lit), `{"fn":` + jsonOf(fn) + `,"arg":` + jsonOf(lit) + `}`} {
+				if err := target().UnmarshalJSON([]byte(js)); err == nil {
+					problems = append(problems, name+":accepts-extension-named-"+fn)
+				}
+			}
+		}
+		for i, js := range []string{`{"__extn":{"fn":` + jsonOf(own) + `}}`, `{"__extn":{"arg":` + jsonOf(lit) + `}}`, `{"__extn":{"fn":` + jsonOf(own) + `,"arg":7}}`,
+			`{"__extn":{"fn":7,"arg":` + jsonOf(lit) + `}}`, `{"__extn":` + jsonOf(lit) + `}`, `{"__extn":[]}`, `{}`, `[]`, `7`, `true`, `{"arg":` + jsonOf(lit) + `}`,
+			`{"fn":` + jsonOf(own) + `}`, extn(own, "not a literal of any type"), jsonOf("not a literal of any type"), `{"fn":` + jsonOf(own) + `,"arg":["` + lit + `"]}`, `"` + lit} {
+			if err := target().UnmarshalJSON([]byte(js)); err == nil {
+				problems = append(problems, fmt.Sprintf("%s:accepts-malformed-%d", name, i))
+			}
+		}
+	}
+	rejects("dec", func() interface{ UnmarshalJSON([]byte) error } { return new(types.Decimal) }, "decimal", dec.String())
+	rejects("ip", func() interface{ UnmarshalJSON([]byte) error } { return new(types.IPAddr) }, "ip", ip.String())
+	rejects("dt", func() interface{ UnmarshalJSON([]byte) error } { return new(types.Datetime) }, "datetime", dt.String())
+	rejects("du", func() interface{ UnmarshalJSON([]byte) error } { return new(types.Duration) }, "duration", du.String())
 	entImplicit := `{"type":` + jsonOf(string(ent.Type)) + `,"id":` + jsonOf(string(ent.ID)) + `}`
 	for i, js := range []string{`{"__entity":` + entImplicit + `}`, entImplicit} {
 		var u types.EntityUID
